@@ -614,6 +614,9 @@ class Executor:
         if isinstance(t, TRef):
             if has_field(t.cls, attr):
                 return self.heap_get(st, base, attr)
+            from .dsl import DICT_CLASSES
+            if t.cls in DICT_CLASSES:
+                return BoundMethod(base, attr)
             return self.class_attr(st, base, CLASS_OBJ.get(t.cls), attr)
         return BoundMethod(base, attr)
 
